@@ -288,7 +288,9 @@ def run(ctx):
 
 def classify(w):
     # -E only protects the distfiles of the *targeted* packages: a file needed by another package in the tree goes
+    # and whose name the target's name/stem regex happens to match
     if (w.get("kind") == "keep-exists" and w.get("with_targets") and w.get("needed_by_targeted") is False
+            and w.get("attributable_to_targets") is not False
             and w.get("scenario", {}).get("opts", {}).get("E")):
         return "exists-guard-limited-to-targeted-packages"
     return None
